@@ -314,8 +314,13 @@ func scHistory(hist string) func(x *vs.Exec) {
 						vs.Fail("%s: %s asked for a server-chosen port; its previous port %d is still free but it got %d", when, name, r, got)
 					}
 				}
+				// a member joining an existing group uses the group's port without asking the allocator for one:
+				// the port is remembered for the member that obtained it
+				joined := typ == "grp" && m.grpMembers() > 0
 				m.live[name] = &live{owner: o.peer, typ: typ, port: got, req: o.port}
-				m.reserved[ptyp+"/"+name] = got
+				if !joined {
+					m.reserved[ptyp+"/"+name] = got
+				}
 				if ptyp == "tcp" {
 					who, e := w.UserEcho(fmt.Sprintf("10.0.%d.1:%d", i, 1000+i), got, "hello")
 					if e != "" {
